@@ -58,13 +58,11 @@ class StateVector():
             float: Optional, If return_phase=True, the global phase angle not captured by the Circuit
         """
         # call to generate the circuit that takes the desired vector to zero
-        disentangling_circuit, global_phase = self.uncomputing_circuit(return_phase=True)
+        disentangling_circuit, global_phase = self.uncomputing_circuit(return_phase=True, set_n_qubits=set_n_qubits)
 
         # invert the circuit to create the desired vector from zero (assuming
-        # the qubits are in the zero state)
+        # the qubits are in the zero state). The inverse keeps the fixed number of qubits, if any.
         state_prep_circuit = disentangling_circuit.inverse()
-        if not set_n_qubits:
-            state_prep_circuit._qubits_simulated = None
         global_phase = -global_phase
 
         return_value = (state_prep_circuit, global_phase) if return_phase else state_prep_circuit
@@ -114,8 +112,9 @@ class StateVector():
         if self.order == "lsq_first":
             circuit.reindex_qubits(list(reversed(range(0, self.n_qubits))))
 
+        # Without a fixed number of qubits, the width is the one implied by the gates
         if not set_n_qubits:
-            circuit._qubits_simulated = None
+            circuit = Circuit(circuit._gates)
 
         return_value = (circuit, global_phase) if return_phase else circuit
         return return_value
